@@ -94,6 +94,16 @@ def assume_inv(ip, spec, frame, extra):
     from .dsl import _b
     for label, fn in spec.invariant.items():
         ip.ctx.assume(ops.bterm(_b(call_clause(fn, env))))
+    if spec.instances is not None:
+        # the invariant clauses are proved for arbitrary Skolem values, so the induction hypothesis may be used at
+        # other instances too (only clauses whose hypotheses do not depend on facts assumed about the Skolem itself)
+        import inspect
+        for inst in spec.instances(env):
+            env2 = dict(env)
+            env2.update(inst)
+            for label, fn in spec.invariant.items():
+                if set(inst) & set(inspect.signature(fn).parameters):
+                    ip.ctx.assume(ops.bterm(_b(call_clause(fn, env2))))
 
 
 def havoc(ip, node, frame, spec):
@@ -114,7 +124,7 @@ def havoc(ip, node, frame, spec):
         cur = frame.locals.get(name)
         if isinstance(cur, SymSeq):
             n = fresh_like(ip, cur, name)
-            cur.arr, cur.n, cur.facts = n.arr, n.n, None
+            cur.arr, cur.n, cur.facts, cur.meas = n.arr, n.n, None, n.meas
         elif isinstance(cur, SymMap):
             n = fresh_like(ip, cur, name)
             cur.dom, cur.val, cur.size = n.dom, n.val, n.size
@@ -234,6 +244,8 @@ def for_with_invariant(ip, node, frame, spec, it):
     else:
         raise Unsupported('for-loop with invariant over %r' % (it,))
     extra = {'_i': 0, '_n': ops.concretize(Sym(n, 'int')), '_it': it}
+    if spec.ghost_init is not None:
+        spec.ghost_init(ip, frame, _env(ip, frame, extra))
     check_inv(ip, spec, frame, extra, 'init', node)
     havoc(ip, node, frame, spec)
     i = ctx.fresh('_i', IntSort)
